@@ -239,7 +239,7 @@ def check(pid, tier, seed):
             divs.append({"seed": seed, "channel": "proto." + x["kind"], "detail": x, "events": []})
     if "migration" in spec.get("extra", []):
         from vlib import migdiff
-        ms_, md, mf = migdiff.run(300 if quick else 20000, seed)
+        ms_, md, mf = migdiff.run((300 if pid in ("C18", "C16") else 120) if quick else (20000 if pid in ("C18", "C16") else 4000), seed)
         all_stats.histories += ms_["cases"]
         all_stats.calls += ms_["cases"]
         all_stats.signatures |= {("migrate", i) for i in range(ms_["signatures"])}
